@@ -50,8 +50,8 @@ def load_corpus():
 
 def gen_cases(ctx, rng, quick):
     cases = []
-    n_det = 260 if quick else 6000
-    n_free = 30 if quick else 400
+    n_det = 700 if quick else 14000
+    n_free = 60 if quick else 1200
     for i in range(n_det):
         r = rng.fork("det%d" % i)
         cfg = {"maxCache": r.choice([1, 1, 2, 3, 4, 1000]), "maxLog": r.choice([60, 200, 1000, 10 ** 7, 10 ** 7]),
@@ -64,6 +64,10 @@ def gen_cases(ctx, rng, quick):
         cfg = {"maxCache": r.choice([1, 2, 3]), "maxLog": r.choice([80, 300, 10 ** 7]), "inline": r.choice([1, 0]),
                "now": 1700000000000}
         ops, meta = K.gen_history(r, r.range(5, 30), cfg, free=True)
+        if i % 3 == 0:
+            # concurrent readers + writer + clock racing the real wheel and eviction worker (implementation-only safety monitor)
+            ops.append("stress %d %d" % (r.below(10 ** 6), r.choice([15, 30, 60])))
+            meta["dist"]["stress"] = 1
         cases.append({"cat": "free-running", "ops": ops, "cfg": cfg, "dist": meta["dist"]})
     return cases
 
@@ -87,7 +91,35 @@ def compare_case(c, impl, model):
     return mism
 
 
+def replay(ctx):
+    """Re-run the op list of a replay file on the real KVStore and on the model; exit 1 if it still fails."""
+    obj = json.load(open(ctx.replay))
+    ops = obj.get("ops") or []
+    ctx.translate(["kv"])
+    ctx.lake_build(MODULES)
+    hb = ctx.build_harness(HARNESS, sanitize=True, flags=["-fno-sanitize=nonnull-attribute"])
+    if not hb or not ops:
+        print("replay: nothing to run (kind=%s)" % obj.get("kind"))
+        return 1 if ctx.violations else 0
+    kvwork = os.path.join(ctx.work, "kvdirs")
+    os.makedirs(kvwork, exist_ok=True)
+    c = {"cat": obj.get("category", "history"), "ops": ops}
+    (c, impl, model), = ctx.lockstep("kv", hb, [c], impl_env={"KV_WORK": kvwork})
+    for o, a, b in zip(ops, impl, model):
+        print("op    %s\n impl  %s\n model %s" % (o[:200], a[:200], b[:200]))
+    fails = K.monitor_reads(ops, impl)
+    for f in fails:
+        print("PROPERTY FAILS:", f[:300])
+    still = bool(fails) or bool(compare_case(c, impl, model))
+    print("replay: %s" % ("still failing" if still else "no longer failing"))
+    import shutil
+    shutil.rmtree(ctx.work, ignore_errors=True)
+    return 1 if still else 0
+
+
 def run(ctx: Ctx):
+    if ctx.replay:
+        return replay(ctx)
     quick = ctx.tier == "quick"
     rng = ctx.rng
     ctx.translate(["kv"])
@@ -107,10 +139,13 @@ def run(ctx: Ctx):
     if hb:
         kvwork = os.path.join(ctx.work, "kvdirs")
         os.makedirs(kvwork, exist_ok=True)
-        cases = load_corpus() + gen_cases(ctx, rng.fork("gen"), quick)
-        res = ctx.lockstep("kv", hb, cases, impl_env={"KV_WORK": kvwork}, timeout=1500)
+        cases = load_corpus() + gen_cases(ctx, rng.fork("gen"), quick) + [{"cat": "stats", "ops": ["stats"]}]
+        res = ctx.lockstep("kv", hb, cases, impl_env={"KV_WORK": kvwork}, timeout=3000)
         n_mismatch = 0
         for c, impl, model in res:
+            if c["cat"] == "stats":
+                ctx.extra["interposer_counts"] = dict(x.split("=") for x in impl[0].split()[1:]) if impl[0].startswith("stats ") else impl[0]
+                continue
             dist[c["cat"]] = dist.get(c["cat"], 0) + 1
             for k, v in c.get("dist", {}).items():
                 opdist[k] = opdist.get(k, 0) + v
